@@ -123,6 +123,11 @@ func cmdCheck(args []string) int {
 	}
 	defer w.cleanup()
 	outDir := filepath.Join(root, "out", *prop)
+	if filepath.Clean(*repo) != "/repo" {
+		// scratch trees (seeded changes, mutations) get their own replay dir so
+		// that concurrent runs of one property do not overwrite each other
+		outDir = filepath.Join(root, "out", *prop+"-"+filepath.Base(filepath.Clean(*repo)))
+	}
 	os.MkdirAll(outDir, 0o755)
 	cfg := defaultConfig(*tier)
 	cfg.Verbose = *verbose
